@@ -14,7 +14,8 @@ stats={}
 for sid in sorted(idx):
     m=json.load(open(f'/verif/seeded/{sid}/meta.json'))
     cb=m.get('caught_by','')
-    rnd=int(m.get('round', 2 if '-r2-' in sid else (3 if '-r3-' in sid else 1)))
+    mr=re.search(r'-r(\d+)-', sid)
+    rnd=int(m.get('round', int(mr.group(1)) if mr else 1))
     before=('existed before' in cb) or ('designed before' in cb)
     left='left so' in cb
     after=('added after' in cb) or ('written after' in cb) or ('MISSED' in cb) or ('widened' in cb)
